@@ -687,13 +687,18 @@ fn main() {
     } else {
         // (a) wide: every representative zone, full action set, depth 3
         r.section("bfs-wide", || {
-            let a = run_bfs(&r, "wide", REP, envk(6), 3, false, 400_000_000, 1500);
+            let a = run_bfs(&r, "wide", REP, envk(40), 3, false, 400_000_000, 1500);
             r.require(a.per_depth[3] > 0, "the wide search reached its depth bound");
         });
-        // (b) deep: the quick zones, core action subset, depth 5
-        r.section("bfs-deep", || {
-            let b = run_bfs(&r, "deep", QUICK_ZONES, envk(2), 5, true, 400_000_000, 1500);
-            r.require(b.per_depth[5] > 0, "the deep search reached its depth bound");
+        // (b) deep, full action set: the quick zones, depth 4
+        r.section("bfs-deep4", || {
+            let b = run_bfs(&r, "deep4", QUICK_ZONES, envk(4), 4, false, 400_000_000, 1500);
+            r.require(b.per_depth[4] > 0, "the depth-4 search reached its depth bound");
+        });
+        // (c) deeper, core action subset: the quick zones, depth 7
+        r.section("bfs-deep7-core", || {
+            let b = run_bfs(&r, "deep7-core", QUICK_ZONES, envk(4), 7, true, 400_000_000, 1500);
+            r.require(b.per_depth[7] > 0, "the depth-7 search reached its depth bound");
         });
     }
     finish(r)
